@@ -212,17 +212,18 @@ u8_t *buffergroup::require_buffer_entry(const u8_t id)
   WV_POINT(WVP_GET_ENTRY, &buflst[id]);
   u8_t *result = buflst[id].get_entry();
   WV_EVENT(WVE_TAKE, result, id, 0);
-  if (result == NULL)
+  // a refilled buffer may hold no whole block (ciphertext body that is not a multiple of 16 bytes): it is handed
+  // back like any other, the worker must not leave while its buffer is READY
+  while (result == NULL)
   {
     ctrl[id].set_update();
     ctrl[id].wait_ready();
     WV_POINT(WVP_WORKER_STATE, &ctrl[id]);
-    if (ctrl[id].cmpstate(READY))
-    {
-      WV_POINT(WVP_GET_ENTRY, &buflst[id]);
-      result = buflst[id].get_entry();
-      WV_EVENT(WVE_TAKE, result, id, 1);
-    }
+    if (!ctrl[id].cmpstate(READY))
+      break;
+    WV_POINT(WVP_GET_ENTRY, &buflst[id]);
+    result = buflst[id].get_entry();
+    WV_EVENT(WVE_TAKE, result, id, 1);
   }
   WV_POINT(WVP_WORKER_RETURN, result);
   return result;
